@@ -96,7 +96,7 @@ PROPS["C02"] = {
     "level": "proof",
     "streams": ["cache", "defaultapi"],
     "ops": ["inject", "defaultapi"],
-    "clauses": "panic|combined|applying|applied-with|resolvable-name|package-level",
+    "clauses": "panic|combined|applying|applied-with|resolvable-name|package-level|api-consistency",
     "trusted_base": CACHE_TB + ["identity of a loaded *Spec modelled by (path, priority)"],
     "assumptions": [],
     "technique": "Lean 4 proof: loop invariant of InjectDevices => one Apply of the declaratively defined combined edit list; dependence only on requested names; metamorphic correspondence (real InjectDevices vs real Apply of the combined list)",
@@ -108,7 +108,7 @@ PROPS["C04"] = {
     "level": "proof",
     "streams": ["cache", "defaultapi"],
     "ops": ["inject", "defaultapi"],
-    "clauses": "panic|unresolv|nil-oci|oci-spec-modified|no-error|package-level",
+    "clauses": "panic|unresolv|nil-oci|oci-spec-modified|no-error|package-level|api-consistency",
     "trusted_base": CACHE_TB,
     "assumptions": [],
     "technique": "Lean 4 proof: same loop invariant => error with exactly the unresolved names in request order (with repetitions), no Apply; nil OCI guard; unresolved iff no declarative winner; before/after comparison of the real OCI spec",
